@@ -64,10 +64,12 @@ fn main() {
         "C03" => pverif::c03::run(tier, seed, replay),
         "C04" => pverif::c04::run(tier, seed, replay),
         "C05" => pverif::c05::run(tier, seed, replay),
+        "C08" => pverif::c08::run(tier, seed, replay),
         "C09" => pverif::c09::run(tier, seed, replay),
         "C10" => pverif::c10::run(tier, seed, replay),
         "C11" => pverif::c11::run(tier, seed, replay),
         "C14" => pverif::c14::run(tier, seed, replay),
+        "C19" => pverif::c19::run(tier, seed, replay),
         _ => {
             eprintln!("unknown property {prop}");
             2
